@@ -26,6 +26,7 @@ RULE = ('histories of 5-40 calls on one SqParser (plain and with a dict parse ca
 RULE += ' A sample of the calls is also replayed in a fresh process (state at module level); names templates include one that shadows builtins and a read-only mapping; corpora contain equal-but-differently-spelled literals whose text is exposed.'
 RULE += ' Sweep: every text of the corpus, twice, on one long-lived parser per worker process, each outcome compared with the outcome of the same call in a fresh process (a zygote forks a child per distinct call; only the child imports the package; outcomes are shared between workers); the corpus includes texts that raise decimal signals (underflow) and print equal numbers written differently.'
 RULE += ' Template rotation: texts of the corpus evaluated under all six names templates in a row (random order) on the long-lived plain and caching parsers, each outcome against a history-free parser.'
+RULE += ' Names templates carry host containers with a copy protocol of their own (a frozen Box is its own deep copy, a mutable one is copied).'
 ASSUMPTIONS = ['visible arguments = source text, budget, and the contents of names with callables treated as opaque (equal if both are callables)',
                'a partially consumed list_names generator is abandoned, never resumed after another call',
                'a history-free parser is a freshly constructed SqParser (about one in seven) or a deep copy of a constructed-but-never-used one (17 ms instead of 130 ms); it serves exactly one call']
@@ -40,7 +41,7 @@ VALID = ['x = 5\nx', 'len = 3\nlen', 'y = [1]\ny', 'sum([1, 2])', 'zz = 1',  '1 
          'x = 1\n\n\ny = x\ny', 'map([1, 2, 3], v => v + 1)', '"s" + 1.50', 'n = 3\nn *= 2\nn', 'd = {}\nd["k"] = 1\nd', 'sorted([3, 1, 2])\n', 'not True or 1 in [1]', '1 if 2 > 1 else 3',
          'x.upper() if False else hs', '0.1 + 0.2 == 0.3', '1 / 3', 'round(2.675, 2)', 'cnt += 1\ncnt', 'acc | push(len(acc))\nacc', 'g = n => n + cnt\ng(1)', 'g(2)', 'f(1)', 'f(2)',
          'f = n => [n, n + 1, n + 2] | map(v => v * 2)', 'len(x)', 'str(1) + "!"', 'max(1, 2)', '[len("ab"), max(3, 4)]', 'x | len', '2 ** 0.5', '(1 / 3) * 3',
-         '"price: " + 2.50', 'x = 2.5 * 4\nx', '10 ** -2000000', '2.50 ** 1', '1.10 ** 2', 'pretty(2500000)', 'pretty(2500000.0)', 'pretty(2500000.00)', 'pretty(7)', 'pretty(7.00)',
+         '"price: " + 2.50', 'x = 2.5 * 4\nx', 'yf = fb\nlen(yf)', 'ym = mb\npush(ym, 99)\nmb', 'ym2 = [mb, fb]\npush(ym2[0], 1)\n[mb, ym2]', 'yf += fb\nyf' if False else 'zf = [fb]\nzf', '10 ** -2000000', '2.50 ** 1', '1.10 ** 2', 'pretty(2500000)', 'pretty(2500000.0)', 'pretty(2500000.00)', 'pretty(7)', 'pretty(7.00)',
          'pretty([1, 1.0, 1.00])', 'pretty({"a": 2.50})', '[round(2.50, 1), round(2.5, 1)]', 'str(7.00) + str(7)', '0.000000000000000000000000000001 * 0.000000000000000000000000000001',
          'match_all("a1b22", r"\\d+")', 'match("abc", "B", "i")', 'sorted([2.0, 2, 1.50])', 'str(1.0)', '{1: "a", 1.0: "b"} | keys', '"n=" + 1', '[2.5, 2.50, 1, 1.0, 007, 7] | map(v => str(v))', 'str(10.0) + str(10)']
 LEXBAD = ['1 + $', 'x = 1\ny = ?', '"unterminated', 'a \\ b', 'f(1,\n 2, ` )', '[1, 2\r3]', 'x = 1 # fine\ny = ~x']
@@ -65,8 +66,21 @@ def boom(*a):
     raise Boom('host callback failed')
 
 
+class Box(list):
+    """a host container with a copy protocol of its own: a frozen box is its own deep copy (legitimate for an immutable value), a mutable one is copied"""
+    frozen = False
+
+    def __deepcopy__(self, memo):
+        if self.frozen:
+            return self
+        b = Box(copy.deepcopy(list(self), memo))
+        return b
+
+
 def fresh_names(template):
-    base = {'x': 'abc', 'hs': 'host', 'cnt': D(0), 'acc': [], 'boom': boom}
+    fb = Box([D(1)])
+    fb.frozen = True
+    base = {'x': 'abc', 'hs': 'host', 'cnt': D(0), 'acc': [], 'boom': boom, 'fb': fb, 'mb': Box([D(2), D(4)])}
     if template == 1:
         base.update({'x': D(5), 'len': lambda v: 42})
     elif template == 2:
